@@ -320,33 +320,47 @@ pub enum Trace {
     Sampled(usize),
 }
 
+/// Resolve a steering recipe into a concrete fuzzer script (executes the generator on growing
+/// prefixes, in this process); None when the generator does not offer the program.
+pub fn resolve_steer(sc: &Scenario) -> Option<Scenario> {
+    let st = sc.steer.as_ref()?;
+    let compact = st.ops.iter().any(|t| t.contains('*'));
+    let (script, mut n) = if compact {
+        (crate::synth::steer_tokens(sc.config.protocol, &st.ops), crate::synth::token_ops(&st.ops))
+    } else {
+        let ops: Vec<&'static str> = st.ops.iter().filter_map(|n| crate::lexer::by_name(n).map(|i| i.name)).collect();
+        let prog = crate::synth::Program { ops };
+        let n = prog.ops.len();
+        (crate::synth::steer(sc.config.protocol, &prog), n)
+    };
+    let mut script = script?;
+    if let Some(b) = st.tail {
+        script.push(b);
+        n += 1;
+    }
+    if let Some((k, sd)) = st.free {
+        use rand::{RngCore, SeedableRng};
+        let mut rng = rand_chacha::ChaCha8Rng::seed_from_u64(sd);
+        let mut tail = vec![0u8; k * 6];
+        rng.fill_bytes(&mut tail);
+        script.extend_from_slice(&tail);
+        n += k;
+    }
+    let mut resolved = sc.clone();
+    resolved.steer = None;
+    resolved.config.min_opcodes = n;
+    resolved.config.max_opcodes = n;
+    resolved.history = vec![HOp::Gen(Entropy::Bytes(script))];
+    Some(resolved)
+}
+
 /// Execute a scenario on one fresh generator, on the calling thread.
 pub fn run_scenario(sc: &Scenario, trace: Trace, spy: bool) -> Vec<CallRecord> {
-    if let Some(st) = &sc.steer {
-        // resolve the steering recipe into a concrete fuzzer script (executes the generator on the
-        // growing prefixes, in this process), then run that
-        let compact = st.ops.iter().any(|t| t.contains('*'));
-        let (script, mut n) = if compact {
-            (crate::synth::steer_tokens(sc.config.protocol, &st.ops), crate::synth::token_ops(&st.ops))
-        } else {
-            let ops: Vec<&'static str> = st.ops.iter().filter_map(|n| crate::lexer::by_name(n).map(|i| i.name)).collect();
-            let prog = crate::synth::Program { ops };
-            let n = prog.ops.len();
-            (crate::synth::steer(sc.config.protocol, &prog), n)
+    if sc.steer.is_some() {
+        return match resolve_steer(sc) {
+            Some(resolved) => run_scenario(&resolved, trace, spy),
+            None => vec![],
         };
-        let Some(mut script) = script else {
-            return vec![];
-        };
-        if let Some(b) = st.tail {
-            script.push(b);
-            n += 1;
-        }
-        let mut resolved = sc.clone();
-        resolved.steer = None;
-        resolved.config.min_opcodes = n;
-        resolved.config.max_opcodes = n;
-        resolved.history = vec![HOp::Gen(Entropy::Bytes(script))];
-        return run_scenario(&resolved, trace, spy);
     }
     verif::set_hash_key(sc.hash_key);
     let log = Arc::new(Mutex::new(Vec::new()));
